@@ -227,11 +227,12 @@ def PSt.pad : PSt → Nat → PSt
   | s, 0 => s
   | s, n+1 => PSt.pad (s.push1 32) n
 
+/-- the writer's settings while `fill` runs: the options, `Width` after the clamp of `encode`, the
+`Indent` chosen by `encode`; `fuel` bounds the recursion of the table functions -/
 structure PW where
   o : POpts
   width : Nat
   indent : Nat
-  lim : Option Nat
   fuel : Nat
 
 /-- the `switch m.kind` shared by `alignArray` and `alignMap` -/
@@ -324,11 +325,11 @@ def layoutOf (w : PW) (depth : Nat) (flat : Bool) : Bytes × Bytes × Bool :=
 
 def PSt.flush (lim : Option Nat) (s : PSt) : PSt := if s.bad then s else { s with st := s.st.flush lim }
 
-/-- `(*Writer).fill` -/
-def fill (w : PW) : Nat → PNode → Nat → Bool → PSt → PSt
+/-- `(*Writer).fill`; `lim` is `none` without an `io.Writer` (`w.w == nil`) -/
+def fill (w : PW) (lim : Option Nat) : Nat → PNode → Nat → Bool → PSt → PSt
   | 0, _, _, _, s => s
   | f+1, n, depth, flat, s =>
-    PSt.flush w.lim <|
+    PSt.flush lim <|
       match n with
       | .leaf _ buf _ => s.push buf
       | .arr ms size ndepth _ =>
@@ -339,9 +340,9 @@ def fill (w : PW) : Nat → PNode → Nat → Bool → PSt → PSt
                    else genTables w.fuel n
         let s2 :=
           match tbl with
-          | none => fillElems (fill w f) l.1 l.2.2 (depth + 1) ms 0 s1
+          | none => fillElems (fill w lim f) l.1 l.2.2 (depth + 1) ms 0 s1
           | some c =>
-            if w.width < depth * w.indent + c.size then fillElems (fill w f) l.1 l.2.2 (depth + 1) ms 0 s1
+            if w.width < depth * w.indent + c.size then fillElems (fill w lim f) l.1 l.2.2 (depth + 1) ms 0 s1
             else alignRows w.fuel c l.1 ms 0 s1
         (s2.push l.2.1).push1 93
       | .map ms size ndepth _ =>
@@ -349,15 +350,21 @@ def fill (w : PW) : Nat → PNode → Nat → Bool → PSt → PSt
         let l := layoutOf w depth flat1
         let s1 := s.push1 123
         let keyWidth := if w.o.align then maxKeyLen ms 1 else 1
-        ((fillMembers (fill w f) l.1 l.2.2 (depth + 1) keyWidth ms 0 s1).push l.2.1).push1 125
+        ((fillMembers (fill w lim f) l.1 l.2.2 (depth + 1) keyWidth ms 0 s1).push l.2.1).push1 125
+
+/-- what `encode` sets up before `fill`: `Width` clamped to `len(spaces)-1`, `Indent` 2 or, for deep
+trees, 1 -/
+def pwOf (o : POpts) (ord : Kvs → Kvs) (v : JV) : PW :=
+  { o := o,
+    width := if Gen.Pretty.spaces.size - 1 < o.width then Gen.Pretty.spaces.size - 1 else o.width,
+    indent :=
+      if (if Gen.Pretty.spaces.size - 1 < o.width then Gen.Pretty.spaces.size - 1 else o.width) * 3 / 8 <
+          (build o ord (Writer.depth v + 1) v).depth then 1 else 2,
+    fuel := Writer.depth v + 2 }
 
 /-- `(*Writer).encode` up to the final write: state after `fill(tree, 0, false)` -/
 def encodeSt (o : POpts) (ord : Kvs → Kvs) (lim : Option Nat) (v : JV) : PSt :=
-  let width := if Gen.Pretty.spaces.size - 1 < o.width then Gen.Pretty.spaces.size - 1 else o.width
-  let tree := build o ord (Writer.depth v + 1) v
-  let indent := if width * 3 / 8 < tree.depth then 1 else 2
-  fill { o := o, width := width, indent := indent, lim := lim, fuel := Writer.depth v + 2 }
-    (Writer.depth v + 1) tree 0 false {}
+  fill (pwOf o ord v) lim (Writer.depth v + 1) (build o ord (Writer.depth v + 1) v) 0 false {}
 
 /-- `pretty.JSON(data, …)`: the text (empty after a recovered panic) -/
 def prettyWrite (o : POpts) (ord : Kvs → Kvs) (v : JV) : Bytes :=
